@@ -47,7 +47,7 @@ cfg("rs_expP.cfg", "exp", Stacks="StText", Outcomes="Out6", PreFF=BOTH, MaxTests
 cfg("rs_expC4.cfg", "exp", Outcomes="Out6", AllowStop="TRUE", PreFF=BOTH, MaxTests=2, MaxRuns=2, MaxCalls=10)
 cfg("rs_mcC.cfg", "mc", Stacks="StacksCore", Outcomes="Out4", AllowStop="TRUE", AllowSetFF="TRUE", PreFF=BOTH, MaxRuns=2, MaxCalls=11)
 # --- C17: tags ----------------------------------------------------------------------------------------------------
-cfg("rs_expT1.cfg", "exp", Stacks="StacksTags", Outcomes="Out1", TagOps="TagOps4", MaxTagOps=2, MaxCalls=10)
+cfg("rs_expT1.cfg", "exp", Stacks="StacksTags", Outcomes="Out1", TagOps="TagOps3", MaxTagOps=2, MaxCalls=10)
 cfg("rs_expT2.cfg", "exp", Stacks="StacksTags", Outcomes="Out1", TagOps="TagOps2", MaxTagOps=2, MaxCalls=9, AllowSkipNoStart="TRUE")
 cfg("rs_expT3.cfg", "exp", Stacks="StacksTags", Outcomes="Out1", TagOps="TagOps2", MaxTagOps=2, MaxTests=1, MaxRuns=2, MaxCalls=10)
 cfg("rs_expT4.cfg", "exp", Stacks="StacksTags", Outcomes="Out1", TagOps="TagOps3", MaxTagOps=3, MaxTests=2, MaxRuns=1, MaxCalls=9, AllowSkipNoStart="TRUE")
